@@ -74,4 +74,19 @@ def policy (cfgOnlyMd : Option Bool) : Bool :=
 def specAccept (cfgOnlyMd : Option Bool) (md : Metadata ι κ) (m : Msg ι κ) (accepted : Bool) : Bool :=
   !accepted || keyOriginB (policy cfgOnlyMd) md m
 
+/-- The item as the property reads it: the issuer is the one the signed item itself names; only an
+    item that names none is attributed to the issuer its caller supplies (`effIssuer`). -/
+def attributed (arg : Option ι) (m : Msg ι κ) : Msg ι κ :=
+  { m with issuer := effIssuer arg m }
+
+/-- Checker for every way a signed item travels.  `after first withArg`: acceptance needs `KeyOrigin`
+    for BOTH items, each under the issuer it names itself. -/
+def specKind (cfgOnlyMd : Option Bool) (md : Metadata ι κ) (kind : Kind ι κ) (m : Msg ι κ) (accepted : Bool) :
+    Bool :=
+  match kind with
+  | .after first withArg =>
+    !accepted || (keyOriginB (policy cfgOnlyMd) md first &&
+      keyOriginB (policy cfgOnlyMd) md (attributed (if withArg then first.issuer else none) m))
+  | _ => specAccept cfgOnlyMd md m accepted
+
 end Keys
